@@ -86,6 +86,23 @@ Theorem C01_codes :
 Proof. exact exit_codes. Qed.
 Print Assumptions C01_codes.
 
+(* Every interleaving is covered: a history is well-formed exactly when the setup-script / gate
+   automaton accepts it and, for every test, the events of that test alone (its projection) form a
+   trace of that test's unit; no other ordering between different tests' events, signals, input
+   and report events is required. Hence the theorems above hold for every OS schedule of the
+   per-test tasks. *)
+Theorem wf_history_is_any_interleaving :
+  forall c mf dbg h, interleaving_of_unit_traces c mf dbg h <-> wf_history c mf dbg h = true.
+Proof. exact interleaving_wf. Qed.
+Print Assumptions wf_history_is_any_interleaving.
+
+Theorem C01_any_interleaving :
+  forall c mf dbg h p,
+    interleaving_of_unit_traces c mf dbg h -> (shutdown_count h <= 2)%nat ->
+    run_exit c mf dbg h p = Some (spec_exit c h p).
+Proof. exact exit_any_interleaving. Qed.
+Print Assumptions C01_any_interleaving.
+
 (* ---- non-vacuity: well-formed histories exist, with each exit status (vm_compute) ---- *)
 
 Example ex_pass_wf : wf_history ex_cfg (Some 1) true ex_pass = true
@@ -114,4 +131,14 @@ Proof. repeat split; vm_compute; reflexivity. Qed.
 
 (* an ill-formed history (a test finishing twice is not something the executor does) is rejected *)
 Example ex_not_wf : wf_history ex_cfg None true (ex_pass ++ [Finished 2 (p_att 1 1)]) = false.
+Proof. vm_compute. reflexivity. Qed.
+
+(* the same unit traces in another interleaving (tests 0 and 2 run to completion before test 1
+   starts; the stop/continue and the key press come first) *)
+Example ex_pass_other_interleaving :
+  wf_history ex_cfg (Some 1) true
+    [SigStop; SigCont; InputEnter; ScriptStarted 0; ScriptSlow 0 false; ScriptFinished 0 Pass;
+     Started 2; Started 0; Finished 2 (l_att 1 1); Finished 0 (p_att 1 1); Skipped 3; Started 1;
+     Slow 1 1 3 false; AttemptFailedWillRetry 1 (f_att 1 3); RetryStarted 1 2 3;
+     AttemptFailedWillRetry 1 (f_att 2 3); RetryStarted 1 3 3; Finished 1 (p_att 3 3)] = true.
 Proof. vm_compute. reflexivity. Qed.
